@@ -151,6 +151,14 @@ impl Ctx {
         }
     }
 
+    /// a difference that does not concern the property under check
+    pub fn other_property(&mut self, what: &str, detail: J) {
+        self.other_prop += 1;
+        if self.other_prop_samples.len() < 3 {
+            self.other_prop_samples.push(json!({"property": "(not C01)", "what": what, "detail": detail}));
+        }
+    }
+
     pub fn deviation(&mut self, what: &str, detail: J) {
         self.deviations += 1;
         if self.deviation_samples.len() < 5 {
@@ -748,9 +756,20 @@ pub fn run_session(ctx: &mut Ctx, v: &J) {
         }
         ctx.judged += 1;
         let sp = ex["prop"].as_str().map(String::from).unwrap_or_else(|| prop.clone());
+        // C01 is about crashes only: a session of C01 in which the crate answers differently WITHOUT crashing (accepts what the
+        // specification rejects, other bytes, another value) is some other property's business -- counted, not an alarm of C01
+        let c01 = sp == "C01";
         if ex["kind"] != o["kind"] {
+            if c01 && o["kind"] != "panic" {
+                ctx.other_property("outcome-kind", json!({"step": i, "event": e, "want": ex["kind"], "got": o["kind"]}));
+                return;
+            }
             ctx.mismatch(&sp, v, "outcome-kind", json!({"step": i, "event": e, "want": ex["kind"], "obs": o}));
             return;
+        }
+        if c01 {
+            // same outcome kind and no crash: nothing else in this step concerns C01 (the follow-up steps still run)
+            continue;
         }
         if o["kind"] == "err" {
             let want = ex["err"].as_str().unwrap_or("");
